@@ -475,7 +475,11 @@ impl Rule {
     // worth creating a version 2.0 over...
     #[allow(clippy::should_implement_trait)]
     pub fn from_str(s: &str) -> crate::Result<Self> {
-        serde_yaml::from_str(s).map_err(crate::error::rule_invalid)
+        // NOTE: Load through a YAML value so that a text and the value it parses to always load
+        // alike, serde_yaml coerces scalars differently when deserialising straight from text.
+        let value: serde_yaml::Value =
+            serde_yaml::from_str(s).map_err(crate::error::rule_invalid)?;
+        Self::from_value(value)
     }
 
     /// Load a rule from a YAML Value.
